@@ -60,15 +60,25 @@ Fixpoint fin_all (p : payload) (i : nat) (qs : list query) : outcome (list query
   | q :: r => obind (finq p i q) (fun q' => obind (fin_all p (S i) r) (fun r' => Ok (q' :: r')))
   end.
 
-Record rres := { stored : list query;     (* rule._conversion_result *)
-                 shown : list query }.    (* what convert_rule returns *)
+Record rres := { stored : option (list query);      (* rule._conversion_result after the call (None: not set) *)
+                 ret : outcome (list query) }.       (* what convert_rule returns / raises *)
 
-(* step 3 of convert_rule / the end of convert_correlation_rule *)
-Definition finish (p : payload) (out br : bool) (raw : outcome (list query)) : outcome rres :=
-  obind raw (fun qs =>
-    let store_fin := fcs || negb br in
-    obind (if store_fin || out then fin_all p 0 qs else Ok qs) (fun fqs =>
-      Ok {| stored := if store_fin then fqs else qs; shown := if out then fqs else [] |})).
+(* step 3 of convert_rule / the end of convert_correlation_rule.  When referring correlation rules embed the
+   raw queries (back reference, no finalize_correlation_subqueries) these are stored first; the rule's own
+   output is finalised afterwards and only if its output switch is on. *)
+Definition finish (p : payload) (out br : bool) (raw : outcome (list query)) : rres :=
+  match raw with
+  | Ok qs =>
+      if fcs || negb br
+      then match fin_all p 0 qs with
+           | Ok fqs => {| stored := Some fqs; ret := Ok (if out then fqs else []) |}
+           | SigmaErr e => {| stored := None; ret := SigmaErr e |}
+           | Crash c => {| stored := None; ret := Crash c |}
+           end
+      else {| stored := Some qs; ret := if out then fin_all p 0 qs else Ok [] |}
+  | SigmaErr e => {| stored := None; ret := SigmaErr e |}
+  | Crash c => {| stored := None; ret := Crash c |}
+  end.
 
 Record state := { results : list (option (list query));   (* _conversion_result of the rules seen so far *)
                   errors : list (nat * N);                 (* backend.errors: (position of the rule, class) *)
@@ -92,12 +102,12 @@ Definition conv_raw (res : list (option (list query))) (r : rule) : outcome (lis
 
 (* one rule: try ... except SigmaError: (collect ? errors.append : raise); other exceptions propagate *)
 Definition step (collect : bool) (C : list rule) (i : nat) (r : rule) (st : state) : state * outcome unit :=
-  match finish (payload_of r) (out_enabled C i) (has_backref C i) (conv_raw (results st) r) with
-  | Ok rr => ({| results := results st ++ [Some (stored rr)]; errors := errors st;
-                 emitted := emitted st ++ shown rr |}, Ok tt)
+  let rr := finish (payload_of r) (out_enabled C i) (has_backref C i) (conv_raw (results st) r) in
+  match ret rr with
+  | Ok qs => ({| results := results st ++ [stored rr]; errors := errors st; emitted := emitted st ++ qs |}, Ok tt)
   | SigmaErr e =>
       if collect
-      then ({| results := results st ++ [None]; errors := errors st ++ [(i, e)]; emitted := emitted st |}, Ok tt)
+      then ({| results := results st ++ [stored rr]; errors := errors st ++ [(i, e)]; emitted := emitted st |}, Ok tt)
       else (st, SigmaErr e)
   | Crash c => (st, Crash c)
   end.
@@ -124,7 +134,7 @@ Arguments Cor {drule crule} c refs generate.
 Arguments PD {drule crule} d.
 Arguments PC {drule crule} c.
 Arguments stored {query} r.
-Arguments shown {query} r.
+Arguments ret {query} r.
 Arguments results {query} s.
 Arguments errors {query} s.
 Arguments emitted {query} s.
